@@ -183,6 +183,9 @@ func optHex(b []byte, err error) string {
 
 func newExec(t *testing.T) func([]string) string {
 	return func(a []string) string {
+		if out, ok := execTwin(a); ok { // twin_test.go
+			return out
+		}
 		switch a[0] {
 		case "dec":
 			if len(a) != 6 {
@@ -603,6 +606,7 @@ func allValid(gs []string) bool {
 
 func gen(r *hlib.Rand, n int, tier, profile string, emit func(string, ...any)) {
 	if profile == "C02" {
+		genTwin(r, n, tier, emit) // twin_test.go
 		genTamper(r, n, emit)
 		return
 	}
